@@ -390,7 +390,7 @@ def _run_forward_slit(case, ctx):
     if m < 3 and len(W) >= 4 and max(W) < 9:
         ctx.violation("psd_horvath_kawazoe/slit/truncated", "the result was truncated although all widths are below the stopping size", n_returned=len(widths), n_expected=len(W) - 1)
         return
-    if not numpy.allclose(widths, exp_mid, rtol=0, atol=2e-4):
+    if not numpy.allclose(widths, exp_mid, rtol=0, atol=2.5e-5):
         bad = int(numpy.argmax(numpy.abs(widths - exp_mid)))
         ctx.violation("psd_horvath_kawazoe/slit/widths-vs-published-equation", "pressures computed from the published slit-pore HK equation are not mapped back to the chosen widths", got=widths[bad], expected=exp_mid[bad],
                       index=bad, ads=ads, mat=mat, T=T, p=p[bad:bad + 2])
